@@ -848,25 +848,36 @@ fn run_with<F>(
             cucumber::writer::AssertNormalized::new(rec_writer.clone())
         };
         let p = || ParserOf(RefCell::new(None));
+        // The hooks are added with the `Cucumber` builder AFTER the CLI options
+        // were given (an application may call the builder methods in any
+        // order), except in every other case, where the runner carries them.
         macro_rules! app {
-            ($runner:expr) => {{
+            ($runner:expr, |$c:ident| $wrap:expr) => {{
                 let pp = p();
                 *pp.0.borrow_mut() = Some(parser_stream);
-                let app = cucumber::Cucumber::<TWorld, _, (), _, _, cucumber::cli::Empty>::custom(
+                let $c = cucumber::Cucumber::<TWorld, _, (), _, _, cucumber::cli::Empty>::custom(
                     pp, $runner, wr(),
                 )
-                .with_cli(opts())
-                .init_tracing();
+                .with_cli(opts());
+                let app = $wrap.init_tracing();
                 Box::pin(async move { drop(app.run(()).await) })
                     as Pin<Box<dyn Future<Output = ()>>>
             }};
         }
+        let late_hooks = case.schedule.seed % 2 == 0;
         let mut fut: Pin<Box<dyn Future<Output = ()>>> =
-            match (cfg.before, cfg.after) {
-                (false, false) => app!(basic),
-                (true, false) => app!(basic.before(before)),
-                (false, true) => app!(basic.after(after)),
-                (true, true) => app!(basic.before(before).after(after)),
+            match (cfg.before, cfg.after, late_hooks) {
+                (false, false, _) => app!(basic, |c| c),
+                (true, false, false) => app!(basic.before(before), |c| c),
+                (false, true, false) => app!(basic.after(after), |c| c),
+                (true, true, false) => {
+                    app!(basic.before(before).after(after), |c| c)
+                }
+                (true, false, true) => app!(basic, |c| c.before(before)),
+                (false, true, true) => app!(basic, |c| c.after(after)),
+                (true, true, true) => {
+                    app!(basic, |c| c.before(before).after(after))
+                }
             };
         drive(
             Box::new(move |cx| match fut.as_mut().poll(cx) {
